@@ -19,6 +19,7 @@ class SeqLink:
         self.dev = dev
         self.rxq = []           # downlink packets waiting for the dispatcher
         self.tx = []            # (header, bytes) every uplink packet
+        self.tx_objs = []       # the packet objects, parallel to tx
         self.manual = None      # fn(header, data) -> True: do not answer automatically (harness injects the reply)
         self.held = []          # replies withheld in manual mode: (header, payload)
         self.closed = False
@@ -26,6 +27,7 @@ class SeqLink:
     def send_packet(self, pk):
         data = bytes(pk.data)
         self.tx.append((pk.header, data))
+        self.tx_objs.append(pk)     # a real driver queues the object: it must still read the same when it is transmitted
         replies = self.dev.handle(pk.header, data)
         for r in replies:
             if self.manual is not None and self.manual(pk.header, data):
@@ -43,6 +45,19 @@ class SeqLink:
 
     def close(self):
         self.closed = True
+
+    def rewritten(self, start=0):
+        """Packets handed over since index `start` whose object no longer reads as it did at hand-over."""
+        out = []
+        for i in range(start, len(self.tx)):
+            o = self.tx_objs[i]
+            try:
+                now = (o.header, bytes(o.data))
+            except Exception as e:  # noqa
+                now = repr(e)
+            if now != self.tx[i]:
+                out.append((i - start, self.tx[i], now))
+        return out
 
 
 def pump(cf):
